@@ -498,8 +498,17 @@ def send_packet_awaited(ctx, prop, only=None):
     """every use of send_packet is `yield <env>.process(self.send_packet(p))`"""
     rule = prop + '.W.send_awaited'
     n = 0
+    scope = None
+    if only:
+        # the named classes and the bases they inherit code from (a transmission loop shared in the base)
+        scope = set()
+        for cn in only:
+            try:
+                scope |= {b.name for b in ctx.repo.find_class(cn).mro()}
+            except Exception:
+                scope.add(cn)
     for f in ctx.repo.all_functions():
-        if only and (f.cls is None or f.cls.name not in only):
+        if scope is not None and (f.cls is None or f.cls.name not in scope):
             continue
         parents = {}
         for node in ast.walk(f.node):
